@@ -126,6 +126,9 @@ RevAxesOf(shape) == [a \in 1..Len(shape) |-> Len(shape) + 1 - a]
 
 AdmissibleND(mode, dir, shapeIn, shapeOut, offs) ==
   \A a \in 1..Len(shapeIn) : AxisMap(mode, dir, shapeIn[a], shapeOut[a], offs[a]).adm
+\* An offset entry on an axis whose size does not change has nothing to add or remove: it is ignored (this is what makes
+\* the scalar spelling offset=k of an n-d resizing that changes only some axes meaningful: k = [k, 0] there).
+EffOffs(shapeIn, shapeOut, offs) == [a \in 1..Len(shapeIn) |-> IF shapeIn[a] = shapeOut[a] THEN 0 ELSE offs[a]]
 ValidOffsets(shapeIn, shapeOut, offs) ==
   \A a \in 1..Len(shapeIn) : ValidOffset(shapeIn[a], shapeOut[a], offs[a])
 
